@@ -34,7 +34,7 @@ CHECKS = {
  },
  'C02': {
   'engine': 'D+K', 'design_ref': 'DESIGN.md §5 C02',
-  'technique': 'Verus-discharged declaration obligations per response member (key, type, absent-never-null, map shape) in all 8 configurations; Verus proof of the glue Response::serialize (status byte, [A0] collapse, GetNextAssertion == GetAssertion) for every capacity; Verus proof of the get_assertion / make_credential ResponseBuilder::build bodies (required members unchanged, every optional member unset); Kani byte-level checks for small responses',
+  'technique': 'Verus-discharged declaration obligations per response member (key, type, absent-never-null, map shape) in all 8 configurations; Verus proof of the glue Response::serialize (status byte, [A0] collapse, GetNextAssertion == GetAssertion) for every capacity; Verus proof of the get_assertion / make_credential / get_info ResponseBuilder::build bodies and of CtapOptions::default (required members unchanged, every optional member unset, option defaults rk=false up=true), in the default and the all-features configuration; Kani byte-level checks for small responses',
   'text': 'Per member of every response struct and nested map, in every feature configuration: emitted under its specification key, Option members skipped with Option::is_none (absent, never null), plain members always emitted, string enums emitted as their spelling, attestation statements untagged. The glue (status byte, [A0] collapse, GetNextAssertion arm) is checked by Kani on the real Response::serialize for small N (bounded).',
   'note': 'derive contracts A1-A3, A5 assumed; cbor-smol scalar heads checked (A6), COSE key order assumed (A7); byte-level equality of the large responses is out of CBMC\'s reach. One known finding (capacity 1).' + _D,
  },
